@@ -543,7 +543,8 @@ def replay(mod, path, expect=None):
         print(f"REPRODUCED property={mod.PROP_ID} signature={want} "
               f"digest={res.get('digest')}")
         if res.get("events"):
-            for e in res["events"][-60:]:
+            for e in res["events"][-int(os.environ.get("VERIF_SHOW_EVENTS",
+                                                       "60")):]:
                 print("   ", e)
         return 1
     print(f"NOT-REPRODUCED property={mod.PROP_ID} wanted={want} got={sigs}")
